@@ -19,7 +19,7 @@
 (* RelationalAlgebraError of the SQL engine for a sort that would be lost. *)
 (*                                                                         *)
 (* A PartialJoin is [o|->"pjoin", fixed, p, common, res]  (res: common     *)
-(* columns resolved; fixed is the rhs, as Relation.join builds it).        *)
+(* columns resolved; lhs: fixed_is_lhs, FALSE as Relation.join builds it). *)
 (***************************************************************************)
 EXTENDS RA_Tree
 
@@ -29,7 +29,9 @@ Opts(pref, backtrack, transfer, require) ==
     [pref |-> pref, backtrack |-> backtrack, transfer |-> transfer, require |-> require]
 DefaultOpts == Opts("none", TRUE, FALSE, FALSE)
 
-PJoin(fixed, p) == [o |-> "pjoin", fixed |-> fixed, p |-> p, common |-> {}, res |-> FALSE]
+PJoin(fixed, p) == [o |-> "pjoin", fixed |-> fixed, p |-> p, common |-> {}, res |-> FALSE, lhs |-> FALSE]
+\* Join(p).partial(fixed, is_lhs=True): the fixed operand is the LEFT side
+PJoinL(fixed, p) == [o |-> "pjoin", fixed |-> fixed, p |-> p, common |-> {}, res |-> FALSE, lhs |-> TRUE]
 
 (***************************************************************************)
 (* _finish_apply for the operations that become nodes                      *)
@@ -127,7 +129,8 @@ ApplyBinary(bop, l, r) ==
 \* _finish_apply including PartialJoin._finish_apply
 FinishApplyX(op, t) ==
     IF op.o = "pjoin"
-    THEN ApplyBinary([o |-> "join", p |-> op.p, common |-> op.common, res |-> op.res], t, op.fixed)
+    THEN LET jop == [o |-> "join", p |-> op.p, common |-> op.common, res |-> op.res] IN
+         IF op.lhs THEN ApplyBinary(jop, op.fixed, t) ELSE ApplyBinary(jop, t, op.fixed)
     ELSE FinishApply(op, t)
 
 (* ---------------- commute incl. PartialJoin ---------------- *)
@@ -207,7 +210,8 @@ SqlAppendUnary(op, S) ==
             IF HasSlice(S) THEN ApplySkip(S, op.terms, NoProj, FALSE, 0, -1)
             ELSE ApplySkip(S.skip, SortThen(Sort(S.sort), op).terms, S.proj, S.dedup, S.a, S.b)
       [] op.o = "pjoin" ->
-            Bind(Conform(op.fixed), LAMBDA f : SqlAppendBinary(JoinOp(op.p, op.common), S, f))
+            Bind(Conform(op.fixed), LAMBDA f : IF op.lhs THEN SqlAppendBinary(JoinOp(op.p, op.common), f, S)
+                                              ELSE SqlAppendBinary(JoinOp(op.p, op.common), S, f))
       [] op.o = "id" -> S
 
 \* _append_binary_to_select
@@ -244,6 +248,9 @@ TransferTo(t, dest) ==
                 IF KindOf(dest) = "sql" THEN PlainSel(Xfer(dest, c)) ELSE Xfer(dest, c))
 
 (* ---------------- iteration.Engine.backtrack_unary ---------------- *)
+\* TRUE: the code after the fix of finding F17 (a companion configuration
+\* overrides it with FALSE and re-derives the counterexample)
+FixF17 == TRUE
 \* [err] | [t |-> tree, done |-> BOOLEAN]
 Backtrack(op, t, pref) ==
     IF KindOf(Eng(t)) = "sql" THEN [t |-> t, done |-> FALSE]      \* base-class implementation
@@ -259,7 +266,11 @@ Backtrack(op, t, pref) ==
            [] t.k = "xfer" ->
                 IF Eng(t.t) = pref
                 THEN Bind(ApplyUnary(op, t.t, DefaultOpts), LAMBDA x : [t |-> Xfer(t.dest, x), done |-> TRUE])
-                ELSE Bind(Backtrack(op, t.t, pref), LAMBDA up : [t |-> Xfer(t.dest, up.t), done |-> up.done])
+                ELSE Bind(Backtrack(op, t.t, pref), LAMBDA up :
+                        \* (fix of finding F17) nothing inserted upstream: the tree ITSELF is returned; the
+                        \* pinned-commit code rebuilt the transfer (transfer.reapply), which for a transfer
+                        \* holding a payload (field p, see RA_Proc) is a different relation
+                        [t |-> IF FixF17 /\ up.t = t.t THEN t ELSE Xfer(t.dest, up.t), done |-> up.done])
 
 (* ---------------- UnaryOperation.apply ---------------- *)
 ApplyUnary(op, t, opts) ==
@@ -285,6 +296,10 @@ Materialize(t, name) ==
 (* ---------------- Relation.join ---------------- *)
 JoinRel(l, r, p, backtrack, transfer) ==
     ApplyUnary(PJoin(r, p), l, Opts("none", backtrack, transfer, FALSE))
+\* Join(p).partial(l, is_lhs=True).apply(r, ...): same join, but r is the target
+\* that is backtracked through and l is held fixed
+JoinRelL(l, r, p, backtrack, transfer) ==
+    ApplyUnary(PJoinL(l, p), r, Opts("none", backtrack, transfer, FALSE))
 
 (***************************************************************************)
 (* C17: coherence of Select markers.                                       *)
